@@ -1,6 +1,7 @@
 package crl
 
 import (
+	"crypto/x509"
 	"go.uber.org/zap"
 	"github.com/gr33nbl00d/caddy-revocation-validator/config"
 	"github.com/gr33nbl00d/caddy-revocation-validator/crl/crlrepository"
@@ -56,4 +57,40 @@ func VerifC16_ProvisionRestart() {
 		st, lerr := c.crlRepository.IsRevoked(cc, nil)
 		verifrt.Assert(lerr == nil && st != nil && st.Revoked, "and is in force when provisioning returns")
 	}
+}
+
+// VerifC16_TrustedSigner: 'verify' with a configured trusted CRL signer (trusted_signature_cert_file) means the
+// same on every intake path. The list is signed by the configured signer's key, which no presented chain
+// carries (a dedicated CRL-signing certificate). Whether the list is taken in as a configured crl_url at
+// provisioning or as a certificate's distribution point during a handshake (actively or in the background):
+// it verifies, comes into force, and the certificate it lists is rejected.
+func VerifC16_TrustedSigner() {
+	worldUp()
+	fetch := config.CRLFetchMode(verifrt.Choose(2))
+	s1, other := sym("s1"), sym("other")
+	signer := crlrepository.VerifCAWithKey(7)
+	l := crlrepository.VerifNewCRL("L", "CN=I1", s1)
+	l.SetSignedBy(7)
+	crlrepository.VerifSetServer(urlA, true, l)
+	viaCDP := verifrt.Choose(2) == 1
+	var urls []string
+	if !viaCDP {
+		urls = []string{urlA}
+	}
+	trustedForNext = []*x509.Certificate{signer}
+	c, perr := provisionChecker(verifrt.Param("disk", 0) == 1, fetch, false, config.SignatureValidationModeVerify, urls, nil)
+	verifrt.Assert(perr == nil, "provisioning succeeds (a configured CRL signed by the trusted signer verifies)")
+	if perr != nil {
+		return
+	}
+	if viaCDP {
+		first := crlrepository.VerifCert("CN=I1", other, urlA)
+		_, _ = c.IsRevoked(first, chainFor(first))
+		verifrt.RunSpawned()
+	}
+	probe := crlrepository.VerifCert("CN=I1", s1)
+	st, err := c.IsRevoked(probe, chainFor(probe))
+	verifrt.DropSpawned()
+	verifrt.Reach("trusted-signer")
+	verifrt.Assert(err == nil && st != nil && st.Revoked, "a CRL signed by the configured trusted signer is in force under 'verify' on this intake path as on every other")
 }
